@@ -14,6 +14,7 @@ import (
 	"math"
 	"regexp"
 	"strconv"
+	"strings"
 )
 
 type verifVector struct {
@@ -296,3 +297,5 @@ func verifMemberOf(s string, words []string) bool {
 	}
 	return false
 }
+
+func verifContains(s, sub string) bool { return strings.Contains(s, sub) }
